@@ -223,7 +223,8 @@ func (g *G) container(id string, rich bool) *nm.Container {
 	}
 	for _, k := range envKeys {
 		if g.r.Intn(p) == 0 {
-			c.Env = append(c.Env, k+"=orig"+[]string{"", "=x", " y"}[g.r.Intn(3)])
+			// one entry in six is bare (no '=') or has an empty value: the key is then the whole string
+			c.Env = append(c.Env, k+[]string{"=orig", "=orig=x", "=orig y", "=orig", "", "="}[g.r.Intn(6)])
 		}
 	}
 	for _, d := range mountDsts {
